@@ -145,6 +145,152 @@ theorem dataframe_dict_keep_count {R D} (toD : R → D) (fromD : D → R) (hreg 
   rw [(dataframe_roundtrip cat h).1, dict_roundtrip toD fromD hreg cat h]
   exact ⟨rfl, rfl⟩
 
+/-! ## round 4: no id column, append to an empty file, the region's dict form spelled out -/
+
+/-- with an id column `write_ascii(id_col=…)` is the writer of the theorems above -/
+theorem writeAsciiG_with_id {F R} (c : FloatCodec F) (cat : Catalog R) (writeHeader writeEmpty append : Bool)
+    (old : List (Line F)) : writeAsciiG c cat writeHeader writeEmpty append old true
+      = writeAscii c cat writeHeader writeEmpty append old := by
+  simp [writeAsciiG, writeAscii]
+
+/-- C14 (ASCII, catalog array without the id column, catalogs.py:339-342): the event-id cells are empty and the loaded
+    catalog has the same events in the same order with identical time and float fields; the ids are the decimal
+    record indices (counted from 1 under a header, from 0 without). No hypothesis on the ids of the original. -/
+theorem ascii_roundtrip_no_id_column {F R} (c : FloatCodec F) (cat : Catalog R) (writeHeader writeEmpty : Bool)
+    (old : List (Line F)) (h : ∀ e ∈ cat.events, EventTimeOk e ∧ EventCodecOk c e) :
+    loadAscii c (writeAsciiG c cat writeHeader writeEmpty false old false)
+      = .ok (renumber (if writeHeader then 1 else 0) cat.events, loadedCatId cat.events cat.catalogId) := by
+  have hrows := fun first i => readLines_rows_noid c cat.catalogId cat.events first i h
+  unfold loadAscii writeAsciiG loadedCatId
+  cases writeHeader
+  · simp [hrows]
+  · by_cases hev : cat.events = []
+    · simp [hev, readLines, renumber]
+    · have : cat.events.isEmpty = false := by
+        cases h' : cat.events with
+        | nil => exact absurd h' hev
+        | cons a t => rfl
+      simp [this, readLines, hrows]
+
+/-- … renumbering touches nothing but the id: count, order, origin time, latitude, longitude, depth, magnitude stay -/
+theorem renumber_keeps_fields : ∀ (i : Nat) (evs : List Event),
+    (renumber i evs).map (fun e => (e.ms, e.lat, e.lon, e.depth, e.mag))
+      = evs.map (fun e => (e.ms, e.lat, e.lon, e.depth, e.mag))
+  | _, [] => rfl
+  | i, e :: es => by simp [renumber, renumber_keeps_fields (i + 1) es]
+
+/-- … and the ids are the record indices i, i+1, … -/
+theorem renumber_ids : ∀ (i : Nat) (evs : List Event),
+    (renumber i evs).map (·.id) = (List.range evs.length).map (fun k => storeId (natDigits (i + k + 1) (i + k)))
+  | _, [] => rfl
+  | i, e :: es => by
+    rw [List.length_cons, List.range_succ_eq_map]
+    simp only [renumber, List.map_cons, renumber_ids (i + 1) es, List.map_map, Nat.add_zero]
+    congr 1
+    apply List.map_congr_left
+    intro k _
+    simp only [Function.comp]
+    rw [show i + 1 + k = i + (k + 1) by omega]
+
+example : (renumber 1 [{ id := "x".toList, ms := 5, lat := 0, lon := 0, depth := 0, mag := 0 },
+    { id := [], ms := 6, lat := 0, lon := 0, depth := 0, mag := 0 }]).map (·.id) = ["1".toList, "2".toList] := by
+  decide +kernel
+
+/-- C14 (append) without the hypothesis that the first catalog is non-empty: appending `b` (no header) to the file
+    of ANY catalog `a` — also an empty one, written with or without header / `write_empty` — loads as
+    `a.events ++ b.events`; the catalog id is that of the last data record -/
+theorem append_concat_any {F R} (c : FloatCodec F) (a b : Catalog R) (writeHeader writeEmpty : Bool)
+    (ha : ∀ e ∈ a.events, EventOk e ∧ EventCodecOk c e) (hb : ∀ e ∈ b.events, EventOk e ∧ EventCodecOk c e) :
+    loadAscii c (writeAscii c b false writeEmpty true (writeAscii c a writeHeader writeEmpty false []))
+      = .ok (a.events ++ b.events,
+          if b.events = [] then loadedCatId a.events a.catalogId else some (b.catalogId.getD (-1))) := by
+  by_cases hae : a.events = []
+  · have hB := fun first i => readLines_rows c b.catalogId b.events first i hb
+    unfold loadAscii loadedCatId
+    cases writeHeader <;> cases writeEmpty <;> by_cases hbe : b.events = [] <;>
+      simp [writeAscii, hae, hbe, readLines, hB]
+  · rw [(append_concat c a b writeHeader writeEmpty ha hb hae).2]
+    simp [loadedCatId, hae]
+
+/-- the dict form of a `CartesianGrid2D` read back (regions.py:689/:699): same polygons in the same order, same spacing;
+    the name has gone through `str()`; magnitude bins are not part of the form -/
+theorem region_dict_roundtrip (r : Region) : Region.fromDict r.toDict = .ok r.afterDict := by
+  simp only [Region.fromDict, Region.toDict, Region.afterDict]
+  rw [swap_swap]
+  rfl
+
+/-- a second trip changes nothing any more -/
+theorem region_dict_fixpoint (r : Region) : r.afterDict.toDict = r.toDict := by
+  simp [Region.toDict, Region.afterDict, pyStrName_idem]
+
+/-- the region's name survives exactly when it is a string (`None` comes back as the string "None") -/
+theorem region_name_survives_iff (r : Region) : r.afterDict.name = r.name ↔ r.name ≠ none := by
+  cases h : r.name <;> simp [Region.afterDict, pyStrName, h]
+
+/-- the rebuilt region puts every point into the same cell -/
+theorem afterDict_same_cell (r : Region) (lon lat : Rat) : r.afterDict.cellOf lon lat = r.cellOf lon lat := rfl
+
+/-- **C14 (dict / JSON) with the region's dict form spelled out — no hypothesis about a region codec**:
+    `from_dict(to_dict(cat))` succeeds, has the same events, catalog id and name, and a region with the same polygons
+    and spacing -/
+theorem dict_roundtrip_concrete (cat : Catalog Region) (h : ∀ e ∈ cat.events, e.id.length ≤ 256) :
+    fromDictC (toDictC cat) = .ok { cat with region := cat.region.map Region.afterDict } := by
+  obtain ⟨events, cid, name, region⟩ := cat
+  have hev : events.map (tupleEvent ∘ eventTuple) = events := by
+    rw [List.map_congr_left (g := id)]
+    · simp
+    · intro e he
+      obtain ⟨i, ms, lat, lon, dep, mag⟩ := e
+      simp only [Function.comp, tupleEvent, eventTuple, id]
+      rw [storeId_of_le (h _ he)]
+  cases region with
+  | none => simp [fromDictC, toDictC, toDict, loadRegion, hev]
+  | some r =>
+    have hc : (Region.toDict r).classId = some cartesianId := rfl
+    simp only [fromDictC, toDictC, toDict, loadRegion, Option.map_some, hc, Option.getD_some, if_true,
+      region_dict_roundtrip, List.map_map, hev]
+
+/-- **the region survives and still bins the events identically**: after dict / JSON every event lies in the same
+    cell of the reloaded region as in the original one, for every point whatsoever the two regions agree, and the
+    per-cell event counts are equal -/
+theorem dict_roundtrip_bins_identically (cat : Catalog Region) (r : Region) (hr : cat.region = some r)
+    (h : ∀ e ∈ cat.events, e.id.length ≤ 256) :
+    ∃ cat' r', fromDictC (toDictC cat) = .ok cat' ∧ cat'.region = some r' ∧ cat'.events = cat.events ∧
+      r'.origins = r.origins ∧ r'.dh = r.dh ∧ (∀ lon lat, r'.cellOf lon lat = r.cellOf lon lat) ∧
+      cellCounts r' cat'.events = cellCounts r cat.events := by
+  refine ⟨_, r.afterDict, dict_roundtrip_concrete cat h, by simp [hr], rfl, rfl, rfl, fun _ _ => rfl, rfl⟩
+
+/-- an empty catalog with a region: nothing special — the region survives although no event does -/
+theorem empty_catalog_region_survives (r : Region) (cid : Option Int) (name : Option (List Char)) :
+    fromDictC (toDictC { events := [], catalogId := cid, name := name, region := some r })
+      = .ok { events := [], catalogId := cid, name := name, region := some r.afterDict } :=
+  dict_roundtrip_concrete _ (by simp)
+
+/-- no region, or `adict['region'] is None`: `None.get` raises AttributeError, which the loader swallows -/
+theorem region_absent : loadRegion none = .ok none := rfl
+
+/-- a dict without `class_id` is read as a `CartesianGrid2D` (catalogs.py:178-179) -/
+theorem class_id_defaults_to_cartesian (r : Region) :
+    loadRegion (some { r.toDict with classId := none }) = .ok (some r.afterDict) := by
+  have h := region_dict_roundtrip r
+  simp only [Region.fromDict, Region.toDict] at h
+  simp only [loadRegion, Option.getD_none, if_true, Region.fromDict, Region.toDict, h]
+
+/-- FINDING (current code): the dict form of a `QuadtreeGrid2D` (regions.py:1201: name and polygons only — no `dh`, no
+    `class_id`) is taken for a Cartesian grid, `from_dict` raises AttributeError("cannot create region without dh"),
+    the loader swallows it: the catalog comes back WITHOUT region, silently -/
+theorem finding_quadtree_form_loses_region (n : Option (List Char)) (ps : Option (List (Rat × Rat))) :
+    loadRegion (some { name := n, dh := none, polygons := ps, classId := none }) = .ok none := by
+  cases ps <;> simp [loadRegion, Region.fromDict]
+
+/-- a class id that is not registered raises KeyError (not swallowed) -/
+example : loadRegion (some { name := none, dh := some 1, polygons := some [], classId := some "Quadtree".toList })
+    = .error .keyError := by decide +kernel
+
+/-- non-vacuity: a two-cell region with an event in the second cell, name `None` -/
+example : cellCounts ({ origins := [(0, 0), (1, 0)], dh := 1, name := none, magnitudes := some [4, 5] } : Region).afterDict
+    [{ id := "a".toList, ms := 0, lat := 1/2, lon := 3/2, depth := 0, mag := 4 }] = [0, 1] := by decide +kernel
+
 /-- the hypotheses are satisfiable: the old failure instant, an id with delimiters, the identity codec -/
 example : EventOk { id := "a,b\" ;".toList, ms := -1097606850620, lat := -90, lon := 180, depth := 5, mag := 9/2 } := by
   refine ⟨by decide, by decide, by decide⟩
